@@ -327,7 +327,7 @@ fn soap_io_p(voc: &Vocab, tag: &str, io: &Value, sp: &str, out: &mut String) {
     out.push_str(&format!("      </wsdl:{tag}>\n"));
 }
 
-fn wsdl_file(voc: &Vocab, f: &Value) -> String {
+fn wsdl_file(voc: &Vocab, f: &Value, all: &[Value]) -> String {
     let w = &f["wsdl"];
     let tns_uri = f.get("tns").and_then(Value::as_str).map(|u| voc.uri(u)).unwrap_or_default();
     let mut out = String::from("<?xml version=\"1.0\" encoding=\"UTF-8\"?>\n");
@@ -348,7 +348,16 @@ fn wsdl_file(voc: &Vocab, f: &Value) -> String {
     for it in arr(f, "items") {
         item(voc, it, &mut out);
     }
-    out.push_str("  </xs:schema>\n  </wsdl:types>\n");
+    out.push_str("  </xs:schema>\n");
+    // further inline schemas: file records of kind "inline" whose parent is this WSDL
+    for g in all.iter().filter(|g| s(g, "kind") == Some("inline") && s(g, "parent") == s(f, "name")) {
+        out.push_str(&schema_open(voc, g, "  ", false));
+        for it in arr(g, "items") {
+            item(voc, it, &mut out);
+        }
+        out.push_str("  </xs:schema>\n");
+    }
+    out.push_str("  </wsdl:types>\n");
     for m in arr(w, "messages") {
         out.push_str(&format!("  <wsdl:message name=\"{}\">\n", xml_esc(&voc.name_xml(s(m, "n").unwrap_or("")))));
         for p in arr(m, "parts") {
@@ -431,12 +440,13 @@ fn wsdl_file(voc: &Vocab, f: &Value) -> String {
 
 /// returns (file name, text) for every file of the case, in the order given
 pub fn render_files(voc: &Vocab, case: &Value) -> Vec<(String, String)> {
-    arr(case, "files")
-        .iter()
+    let all = arr(case, "files");
+    all.iter()
+        .filter(|f| s(f, "kind") != Some("inline"))
         .map(|f| {
             let name = s(f, "name").unwrap_or("f.xsd").to_string();
             let text = match s(f, "kind") {
-                Some("wsdl") => wsdl_file(voc, f),
+                Some("wsdl") => wsdl_file(voc, f, all),
                 Some("raw") => voc.text(s(f, "text").unwrap_or("")),
                 _ => xsd_file(voc, f),
             };
